@@ -12,8 +12,11 @@ long verif_idn_creates = 0, verif_idn_destroys = 0, verif_idn_live = 0, verif_id
 
 int idna_to_ascii_lz(const char *input, char **output, int flags)
 {
-    (void)flags;
-    return idn2_to_ascii_8z(input, output, IDN2_NONTRANSITIONAL);
+    /* libidn's flag bits are mapped onto libidn2's: a back end that passes other flags than the others converts differently */
+    int f2 = IDN2_NONTRANSITIONAL;
+    if (flags & IDNA_USE_STD3_ASCII_RULES) f2 |= IDN2_USE_STD3_ASCII_RULES;
+    if (flags & IDNA_ALLOW_UNASSIGNED) f2 |= IDN2_ALLOW_UNASSIGNED;
+    return idn2_to_ascii_8z(input, output, f2);
 }
 
 const char *idna_strerror(Idna_rc rc) { return idn2_strerror(rc); }
